@@ -1,7 +1,7 @@
 //! Correspondence harness: runs the real Heathcliff code in-process on generated inputs and
 //! prints one case per line (`fn args => impl-output # class`).  See /verif/DESIGN.md §3.3.
 mod rng; mod util;
-mod big; mod ctx; mod c01; mod c02; mod c03; mod c04; mod c11; mod c05; mod c06; mod c07; mod c08; mod c09; mod c10; mod c12; mod c13; mod ser; mod c14; mod c15; mod c16; mod c17; mod c18;
+mod big; mod ctx; mod c01; mod c01e; mod c02; mod c03; mod c04; mod c11; mod c05; mod c06; mod c07; mod c08; mod c09; mod c10; mod c12; mod c13; mod ser; mod c14; mod c15; mod c16; mod c17; mod c18;
 mod c19;
 mod c20;
 mod wrappers;
